@@ -312,6 +312,20 @@ func main() {
 				if len(m) <= 8192 {
 					emitD(m)
 				}
+				// the same bytes under a length octet that lies (short-form headers): decoders must go
+				// by the datagram, and whoever trusts the octet shows
+				if k < 28*40 && len(b) >= 2 && b[0] != 1 {
+					for _, l := range []int{2, 3, 4, len(b) - 1, len(b) + 1} {
+						if l >= 2 && l <= 255 && l != len(b) {
+							v := append([]byte{}, b...)
+							v[0] = byte(l)
+							emitD(v)
+							if l == 2 { // ... and the empty form of the type followed by a body
+								emitD(append(append([]byte{2, b[1]}, 0x30), []byte("a/b")...))
+							}
+						}
+					}
+				}
 			}
 		}
 	}
